@@ -407,6 +407,39 @@ CHECKS.update({
         design_ref="DESIGN.md section 4/C06"),
 })
 
+
+CHECKS.update({
+    "C11": dict(
+        level="model_checking",
+        technique="TLA+ specs term/CollapseDefs + CollapseCases (detectors and mask algebra as operators over bounded histories), "
+                  "term/Collapse.tla (the loop Solve -> stop message -> Collapse -> Solve as a state machine: termination "
+                  "configuration, recorded window, masks, applied pins and ties; CostCall enabled only at points satisfying every "
+                  "collapsed relation) with Trace_Collapse.tla, and term/CollapseCost.tla, model-checked by TLC (design "
+                  "invariants, action properties, <>Stopped under weak fairness; the as-found constraint composition, the "
+                  "mask-replace and mask-keep rules and eight vacuity witnesses are refuted).  TLC emits every history of the "
+                  "bounded class with the report of every detector configuration, and every reachable loop stop with the "
+                  "expected effect of Collapse(); both are replayed on the real code (spec->code); recorded solver runs are "
+                  "validated by TLC against Trace_Collapse.tla (code->spec)",
+        text="Detector tables (quick 127k, thorough 4.9M cases): parameter histories (3 parameters over {0,1,2}, length <=3; 2 "
+             "parameters, length <=4), tolerances {0,1/2,1,3/2,2}, windows {None,0..4}, targets None/scalar/per-parameter lists, "
+             "offset on/off, masks None / every index set / pair sets in both orientations / dict, set and 'where' formats for "
+             "weights and positions (equal-sized measures): the report of collapse_at/as/weight/position, of the Collapse* "
+             "termination conditions (alone, under Or, through collapsed() and solver.Collapsed()), update_mask/get_mask, and "
+             "re-feeding the output as mask (nothing new) are compared exactly.  Loop: every reachable stop of Collapse.tla "
+             "(2.5k quick / 20k thorough) replayed through the public Collapse() on real DE, DE2, Nelder-Mead and Powell "
+             "objects: reported pins and ties, masks afterwards, and the new constraints at every point of the domain.  "
+             "Recorded runs (128 / 1152; all four kinds, 2-4 parameters, flat and tied directions, Solve() and manual Step/"
+             "Collapse loops): reported disjoint from the mask, mask after = before + reported, never reported twice, every "
+             "later cost call and the final solution satisfy every applied relation exactly, the solve ends.",
+        note="trusted: TLC, float-equality interning to ids, reading state(solver._termination) for the masks; premises: small "
+             "integer values and dyadic tolerances in the tables, equal-sized product-measure factors (DESIGN F9), applied "
+             "relations jointly satisfiable, deterministic objectives, every run has limits; exclusions: collapse_cost interval "
+             "search (mask algebra only), offset=True and CollapseCost inside the solver loop; known findings (pin/tie "
+             "composition order in __collapse_constraints; DE/DE2 incumbent best predating a collapse) are listed per clause in "
+             "known_findings.jsonl",
+        design_ref="DESIGN.md section 4/C11"),
+})
+
 PENDING = {}
 for _i in range(1, 21):
     _id = "C%02d" % _i
